@@ -245,6 +245,45 @@ def gen_address(run):
             run.traces_validated += 1
 
 
+def twin_sheets(run):
+    """Several worksheets with the SAME unprefixed lookup formulas over the same layout and different data: a reference without a
+    prefix denotes the formula's own sheet, on every sheet, whichever sheet was translated first."""
+    forms = ['=INDEX(B1:B3,MATCH(20,A1:A3,0))', '=INDEX(A1:C3,3,3)', '=VLOOKUP(20,A1:C3,3,FALSE)', '=MATCH(30,A1:A3,0)', '=XMATCH(10,A1:A3)', '=INDEX(B1:B3,2)',
+             '=VLOOKUP(25,A1:C3,2,TRUE)', '=INDEX(A1:C3,MATCH(30,A1:A3,0),2)']
+    titles = ['Jan', 'Feb', 'Mar']
+    sheets, want = [], []
+    for si, t in enumerate(titles):
+        k = 1000 * (si + 1)
+        cells = {(0, r): 10 * (r + 1) for r in range(3)}
+        cells.update({(1, r): k + 10 * (r + 1) + 1 for r in range(3)})
+        cells.update({(2, r): k + 10 * (r + 1) + 2 for r in range(3)})
+        for i, f in enumerate(forms):
+            cells[(4, i)] = f
+        sheets.append((t, cells))
+        want.append([k + 21, k + 32, k + 22, 3, 1, k + 21, k + 21, k + 31])
+    for order in ('file', 'last_sheet_first'):
+        excel = repo.mem_excel(sheets)
+        try:
+            if order == 'file':
+                klass = repo.load_class(repo.translate_file(excel)[0])
+            else:
+                ctx = repo.Context()
+                ctx._titles = excel.get_titles()
+                ctx._sheets_size = excel.get_sheets_size()
+                for si in (2, 0, 1):
+                    for i in range(len(forms)):
+                        repo.CellTranslator.translate(repo.Cell(si, 4, i), excel, ctx)
+                klass = repo.load_class(ctx.build_class())
+            ex = repo.fresh_executor(klass)
+            got = [[ex.get_cell(repo.Cell(si, 4, i)).value for i in range(len(forms))] for si in range(3)]
+        except Exception as e:   # noqa
+            got = f'raises {type(e).__name__}: {e}'[:160]
+        bad = got if not isinstance(got, list) else [(titles[si], forms[i], got[si][i], want[si][i]) for si in range(3) for i in range(len(forms)) if got[si][i] != want[si][i]]
+        run.judge({'in': {'formulas': forms, 'sheets': titles, 'order': order, 'mode': 'twin_sheets'}, 'obs': str(bad)[:400], 'kind': 'twin_sheets'}, not bad,
+                  clause=f'the same unprefixed lookup formulas on the sheets {titles} (translation order: {order}): (sheet, formula, got, expected) {bad}', part='twin_sheets')
+        run.traces_validated += 1
+
+
 def gen_colarea(run):
     """COLUMN over areas of several columns: the formula cell holds the first column's number (also as an operand), and the cells beside it
     keep their own content (constants and a formula that reads them)"""
@@ -387,6 +426,7 @@ def check(run):
     gen_index(run)
     gen_address(run)
     gen_colarea(run)
+    twin_sheets(run)
     trace(run)
     public_path(run)
 
